@@ -757,6 +757,47 @@ def refine_loop(plain, quants, goal, skolems, budget):
     return 'unknown', 30
 
 
+def mbqi_refine(plain, quants, goal, skolems, budget):
+    """model-based refutation with z3's own arrays and functions (no elimination needed): solve the instantiated query, then check
+    every quantified hypothesis *exactly* in the model -- substitute the model into `k in range and not body(k)` and ask for a k.
+    A counter-instance is added and the loop repeats; if none exists the model satisfies all hypotheses and refutes the goal."""
+    t0 = time.time()
+    active = instantiate(quants, plain, goal, extra_terms=skolems, goal_only=True, rounds=1)
+    ng = z3.Not(goal)
+    seen = set(a.get_id() for a in active)
+    for rnd in range(25):
+        left = budget - (time.time() - t0)
+        if left <= 0: return 'unknown', rnd
+        s = z3.Solver()
+        for h in plain: s.add(h)
+        for h in active: s.add(h)
+        s.add(ng)
+        r, _ = _check(s, min(left, 5.0) * 1000)
+        if r == 'unsat': return 'unsat', rnd
+        if r != 'sat': return 'unknown', rnd
+        m = s.model()
+        added = 0
+        for q in quants:
+            ks = [z3.Int('mbqi!k%d' % i_) for i_ in range(len(q.vars))]
+            try:
+                e = m.eval(z3.And(q.range_cond(*ks), z3.Not(q.inst(*ks))), model_completion=True)
+            except z3.Z3Exception:
+                return 'unknown', 'eval'
+            s2 = z3.Solver(); s2.add(e)
+            r2, _ = _check(s2, 2000)
+            if r2 == 'unsat': continue
+            if r2 != 'sat': return 'unknown', 'inner'
+            m2 = s2.model()
+            vals = [m2.eval(k_, model_completion=True) for k_ in ks]
+            inst = q.inst(*vals)
+            inst = z3.Implies(q.range_cond(*vals), inst)
+            if inst.get_id() in seen: return 'unknown', 'repeat'
+            seen.add(inst.get_id()); active.append(inst); added += 1
+        if not added:
+            return 'sat', model_summary(m)
+    return 'unknown', 25
+
+
 def model_summary(m, limit=60):
     out = {}
     try:
@@ -775,6 +816,7 @@ def discharge(hyps, goal, budget=20.0, skolems=(), want_model=True):
     quants = [h for h in hyps if isinstance(h, Quant)]
     ng = z3.Not(goal)
     nonlin = is_nonlinear(plain + [goal])
+    nonlin_goal_heavy = False
     log = []
 
     def done(verdict, backend, model=None):
@@ -970,6 +1012,11 @@ def discharge(hyps, goal, budget=20.0, skolems=(), want_model=True):
             if r == 'sat':
                 v = failed_or('z3-smt-cegqi', info if want_model else None, insts)
                 if v is not None: return v
+            if r == 'unknown' and not nonlin_goal_heavy:
+                r, info = mbqi_refine(plain, quants, goal, skolems, min(budget, 15.0))
+                log.append(('R2:mbqi', r, info if not isinstance(info, dict) else 'model'))
+                if r == 'unsat': return done('proved', 'z3-smt-mbqi')
+                if r == 'sat': return done('failed', 'z3-smt-mbqi(model checked against every quantified hypothesis)', info if want_model else None)
     # Tier C: everything to the default solver with instances added
     s = z3.Solver()
     for h in plain: s.add(h)
